@@ -35,7 +35,7 @@ cp "$SRC/demo_test.go" "$S/repo/zz_seed_demo_test.go"; cp "$SRC/demo_test.go" "$
 rm -f "$S/repo/zz_seed_demo_test.go"
 echo "seed confirmed: builds, suite passes, demo fails with patch and passes without (race=$RACE)"
 D="/verif/seeded/$NAME"; mkdir -p "$D"
-cp "$SRC/patch.diff" "$SRC/demo_test.go" "$D/"
+[ "$SRC" = "$(realpath "$D")" ] || cp "$SRC/patch.diff" "$SRC/demo_test.go" "$D/"
 caught=""; missed=""; incon=""
 for ID in $IDS; do
   VERIF_REPO="$S/repo" VERIF_OUT="$S/out" /verif/check "$ID" --tier quick > "$S/$ID.log" 2>&1
